@@ -35,6 +35,14 @@ replays every line on `exec`.
   such instructions: hardware + compiler.  The check inspects the *emitted instructions*
   (disassembly of one function per op/width) and hammers the real operations from several threads,
   but neither is a proof;
+* the *compiler contract* of the inline-asm operand constraints (what gcc may assume about plain C
+  accesses to the same object around a uatomic call).  The model describes what the instruction
+  does to memory, not what the optimizer is told.  A genuine defect lived exactly there: `x86.h`
+  declared the memory operand of `add/sub/inc/dec/and/or` write-only (`"=m"`), so gcc deleted a
+  preceding plain store (`g = 10; uatomic_inc(&g)` gave a stale value + 1; repaired in /repo).  The
+  harness' `plainstore` mode checks this at oracle level (real headers at -O1, -O2 and -O3, plain store
+  then RMW / RMW then plain load, on globals, statics, malloc'ed objects and pointer parameters) –
+  a test of this compiler on those function shapes, not a theorem;
 * the exhaustive 8-bit operand-pair runs of the tie are *tests* of the correspondence between the
   compiled headers and `exec` (they cover every 8-bit input of every op); they are not kernel
   proofs and the theorems below do not depend on them.  The theorems are general in `w`.
